@@ -146,3 +146,50 @@ def shrink(mod, plan, sig, budget=300, log=None):
                 improved = True
                 break
     return best, used
+
+
+# ---------------------------------------------------------------- chains of runs
+# A violation that appears only when earlier runs were executed in the same process (state
+# kept at module or class level by the library) is replayed as a *chain*: the plans are
+# executed back to back in one fresh process and the last one must show the violation.
+
+
+def run_chain(mod, plans):
+    def job():
+        if hasattr(mod, "INLINE_TWIN"):
+            mod.INLINE_TWIN = True
+        rec = None
+        for p in plans:
+            rec = mod.execute(p)
+        return {"violations": rec["violations"], "plan": rec["plan"], "text": rec.get("text"), "digest": rec["digest"], "log": rec.get("log")}
+
+    return fork_call(job)
+
+
+def shrink_chain(mod, plans, sig, budget=60):
+    """Drop earlier runs while the last one still shows the violation."""
+    used = 0
+    best = list(plans)
+    improved = True
+    while improved and used < budget and len(best) > 1:
+        improved = False
+        n = len(best) - 1
+        cands = []
+        if n >= 4:
+            cands.append(best[n // 2 :])
+            cands.append(best[: n // 2] + best[-1:])
+        for i in range(n):
+            cands.append(best[:i] + best[i + 1 :])
+        for c in cands:
+            if used >= budget:
+                break
+            used += 1
+            try:
+                rec = run_chain(mod, c)
+            except HarnessError:
+                continue
+            if reproduces(rec, sig):
+                best = c
+                improved = True
+                break
+    return best, used
